@@ -861,7 +861,7 @@ func (g *FuncGen) analyzeCFG() {
 	if g.c != nil {
 		for n := range g.c.Loops {
 			if n < 1 || n > len(g.loops) {
-				panic(fmt.Sprintf("contract for %s has loop %d but the function has %d loops", g.key, n, len(g.loops)))
+				panic(specErr{fmt.Sprintf("the contract has loop %d but the function has %d loops", n, len(g.loops))})
 			}
 		}
 	}
